@@ -278,12 +278,18 @@ class SessRun(Run):
         elif k == 'kill':
             self.n_kill += 1
             o = self.conn_ids[e[1]]
-            # every other idle connection is ended with a reset (RST) instead of an orderly close (FIN)
+            # the three ways an idle connection ends: an orderly close (FIN), a reset (RST), and a close preceded by
+            # a goodbye line that nobody reads ("408 Request Timeout" / FTP "421 Timeout.")
             self.ended_by_peer = getattr(self, 'ended_by_peer', set()) | {e[1]}
-            if e[1] % 2 == 0 and getattr(o._active_connection.reader, '_ep', None) is not None:
-                o._active_connection.reader._ep.reset_now()
+            rd = o._active_connection.reader
+            how = (e[1] + self.n_kill) % 3
+            if how == 2 and getattr(rd, '_ep', None) is not None:
+                rd._ep.reset_now()
+            elif how == 0:
+                rd.feed_data(b'HTTP/1.1 408 Request Timeout\r\nConnection: close\r\n\r\n')
+                rd.feed_eof()
             else:
-                o._active_connection.reader.feed_eof()
+                rd.feed_eof()
             self.log(e='kill', x=e[1])
         elif k == 'cancel':
             self.n_cancel += 1
